@@ -29,12 +29,16 @@ def strip(x):
     return x[1:-1] if len(x) >= 2 and x[0] == '"' and x[-1] == '"' else x
 
 
-def make(n, edges, init, finals, deco, asyn=False):
+IDSETS = {"s": ("s0", "s1", "s2", "s3"), "i": ("i", "j", "k", "l")}
+
+
+def make(n, edges, init, finals, deco, asyn=False, ids="s"):
     """Returns (cls, expected) where expected describes the reference graph."""
     from statemachine import State, StateMachine
     from statemachine.factory import StateMachineMetaclass
     ns = {}
     st = []
+    SID = IDSETS[ids]
     for i in range(n):
         kw = {}
         if VALUES[i % 3] is not None:
@@ -43,33 +47,33 @@ def make(n, edges, init, finals, deco, asyn=False):
             kw["enter"] = "ent"
             kw["exit"] = "ext"
         st.append(State(name=f"State {i}", initial=(i == init), final=(i in finals), **kw))
-        ns[f"s{i}"] = st[-1]
+        ns[IDSETS[ids][i]] = st[-1]
     exp_edges = Counter()
     internal = {i: [] for i in range(n)}
     for k, (a, b) in enumerate(sorted(edges)):
         if deco == "plain":
             st[a].to(st[b], event="e")
-            exp_edges[(f"s{a}", f"s{b}", "e", "")] += 1
+            exp_edges[(SID[a], SID[b], "e", "")] += 1
         elif deco == "guarded-parallel":
             st[a].to(st[b], event="e", cond="g1")
             st[a].to(st[b], event="f", unless=["g2", "g1"])
             st[a].to(st[b], event="e", cond=["g1", "g2"], unless="g3")
-            exp_edges[(f"s{a}", f"s{b}", "e", "g1")] += 1
-            exp_edges[(f"s{a}", f"s{b}", "f", "!g2, !g1")] += 1
-            exp_edges[(f"s{a}", f"s{b}", "e", "g1, g2, !g3")] += 1
+            exp_edges[(SID[a], SID[b], "e", "g1")] += 1
+            exp_edges[(SID[a], SID[b], "f", "!g2, !g1")] += 1
+            exp_edges[(SID[a], SID[b], "e", "g1, g2, !g3")] += 1
         elif deco in ("internal", "internal-actions"):
             if a == b:
                 st[a].to(st[b], event=f"i{k}", internal=True, on="act")
                 internal[a].append(f"i{k}")
                 # keep the state non-trapping for validation purposes: also an external loop
                 st[a].to(st[b], event="e")
-                exp_edges[(f"s{a}", f"s{b}", "e", "")] += 1
+                exp_edges[(SID[a], SID[b], "e", "")] += 1
             else:
                 st[a].to(st[b], event="e")
-                exp_edges[(f"s{a}", f"s{b}", "e", "")] += 1
+                exp_edges[(SID[a], SID[b], "e", "")] += 1
         elif deco == "multi-event":
             st[a].to(st[b], event=["e", "f"] if k % 2 else "e f g")
-            exp_edges[(f"s{a}", f"s{b}", "e f" if k % 2 else "e f g", "")] += 1
+            exp_edges[(SID[a], SID[b], "e f" if k % 2 else "e f g", "")] += 1
     for nm in ("g1", "g2", "g3"):
         ns[nm] = True
     if asyn:
@@ -84,9 +88,10 @@ def make(n, edges, init, finals, deco, asyn=False):
     with warnings.catch_warnings():
         warnings.simplefilter("ignore")
         cls = StateMachineMetaclass("D", (StateMachine,), ns)
-    exp = {"nodes": {f"s{i}" for i in range(n)}, "edges": exp_edges, "internal": internal,
-           "finals": {f"s{i}" for i in finals}, "initial": f"s{init}",
-           "names": {f"s{i}": f"State {i}" for i in range(n)}}
+    exp = {"nodes": {SID[i] for i in range(n)}, "edges": exp_edges,
+           "internal": {SID[i]: v for i, v in internal.items()},
+           "finals": {SID[i] for i in finals}, "initial": SID[init],
+           "names": {SID[i]: f"State {i}" for i in range(n)}}
     return cls, exp
 
 
@@ -106,22 +111,26 @@ def reachable(n, edges, init):
 def check_graph(graph, exp, current):
     """current: None for a class, else the id of the current state."""
     nodes = {}
+    names = [strip(nd.get_name()) for nd in graph.get_nodes()]
+    pseudo = [nm for nm in names if nm not in exp["nodes"]]
+    for nm in exp["nodes"]:
+        if names.count(nm) != 1:
+            return (f"state {nm} is drawn {names.count(nm)} times (nodes: {sorted(names)}): every "
+                    f"state needs exactly one node of its own, distinct from the initial pseudo-node")
+    if len(pseudo) != 1:
+        return f"nodes {sorted(names)}: expected the states {sorted(exp['nodes'])} plus one pseudo-node"
+    pseudo = pseudo[0]
     for nd in graph.get_nodes():
-        name = strip(nd.get_name())
-        if name in nodes:
-            return f"node {name} drawn twice"
-        nodes[name] = nd.get_attributes()
-    if set(nodes) != exp["nodes"] | {"i"}:
-        return f"nodes {sorted(nodes)} expected {sorted(exp['nodes'] | {'i'})}"
+        nodes[strip(nd.get_name())] = nd.get_attributes()
     edges = Counter()
     init_edges = []
     for e in graph.get_edges():
         s, d = strip(e.get_source()), strip(e.get_destination())
         lab = strip(e.get_attributes().get("label", ""))
-        if s == "i":
+        if s == pseudo:
             init_edges.append(d)
             continue
-        if d == "i":
+        if d == pseudo:
             return "an edge points at the initial pseudo-node"
         ev, _, cond = lab.partition("\n")
         cond = cond.strip()
@@ -150,9 +159,9 @@ def check_graph(graph, exp, current):
             head, sep, _ = ln.partition(" / ")
             if sep and head.strip() not in ("entry", "exit"):
                 listed.append(head.strip())
-        if sorted(listed) != sorted(exp["internal"][int(sid[1:])]):
+        if sorted(listed) != sorted(exp["internal"][sid]):
             return (f"state {sid}: internal transitions listed in the label {listed}, expected "
-                    f"{exp['internal'][int(sid[1:])]}")
+                    f"{exp['internal'][sid]}")
         fill = strip(str(at.get("fillcolor", "")))
         pen = at.get("penwidth")
         if fill not in ("white", "") or pen is not None:
@@ -188,14 +197,15 @@ def worker(block):
                     itertools.combinations(range(n), r) for r in range(n + 1)):
                 if oracle(n, edges, {init}, set(finals), False)[0] != "accept":
                     continue
-                for deco in DECOS:
+                for deco, ids in [(d, "s") for d in DECOS] + [("plain", "i"), ("internal", "i")]:
                     if deco.startswith("internal") and not any(a == b for a, b in edges):
                         continue
+                    SID = IDSETS[ids]
                     sc = {"n": n, "edges": [list(e) for e in edges], "init": init,
-                          "finals": list(finals), "deco": deco}
+                          "finals": list(finals), "deco": deco, "ids": ids}
                     try:
                         with deadline(30):
-                            cls, exp = make(n, edges, init, set(finals), deco)
+                            cls, exp = make(n, edges, init, set(finals), deco, ids=ids)
                             res.stats["states"] += 1
                             msg = check_graph(DotGraphMachine(cls)(), exp, None)
                             res.stats["transitions"] += 1
@@ -205,9 +215,9 @@ def worker(block):
                                 continue
                             sm = cls()
                             for cur in reachable(n, edges, init):
-                                sm.current_state_value = getattr(cls, f"s{cur}").value
+                                sm.current_state_value = getattr(cls, SID[cur]).value
                                 via = DotGraphMachine(sm)() if cur % 2 else sm._graph()
-                                msg = check_graph(via, exp, f"s{cur}")
+                                msg = check_graph(via, exp, SID[cur])
                                 res.stats["transitions"] += 1
                                 res.hist["instance" + ("-falsy-value" if not sm.current_state_value
                                                        else "")] += 1
@@ -215,7 +225,7 @@ def worker(block):
                                     res.violation({"category": _cat(msg), "of": "instance",
                                                    "deco": deco},
                                                   dict(sc, of="instance", current=cur),
-                                                  f"instance diagram in s{cur}: {msg}")
+                                                  f"instance diagram in {SID[cur]}: {msg}")
                                     break
                     except Hang:
                         res.violation({"category": "hang"}, sc, "diagram generation hung")
@@ -261,10 +271,11 @@ def run(tier, seed):
 def replay(sc):
     from statemachine.contrib.diagram import DotGraphMachine
     edges = [tuple(e) for e in sc["edges"]]
-    cls, exp = make(sc["n"], edges, sc["init"], set(sc["finals"]), sc["deco"])
+    ids = sc.get("ids", "s")
+    cls, exp = make(sc["n"], edges, sc["init"], set(sc["finals"]), sc["deco"], ids=ids)
     if sc["of"] == "class":
         return check_graph(DotGraphMachine(cls)(), exp, None)
     sm = cls()
     cur = sc["current"]
-    sm.current_state_value = getattr(cls, f"s{cur}").value
-    return check_graph(sm._graph(), exp, f"s{cur}")
+    sm.current_state_value = getattr(cls, IDSETS[ids][cur]).value
+    return check_graph(sm._graph(), exp, IDSETS[ids][cur])
